@@ -143,7 +143,8 @@ def local_combination_failures(sa, op, key, tol=1e-11, unchanged=()):
 
 def run_case(case):
     config, history = case["config"], case["history"]
-    key = {}
+    # the known finding (coarsening versions 1 and 2 started with lmin >= 2) is keyed narrowly; everything else has this flag False
+    key = {"versions_1_2_with_lmin_ge_2": bool(config["version"] in (1, 2) and config["lmin"] >= 2)}
     r = es.build(config, history, _f, 1)
     sa, op = r.sa, r.op
     fails = tiling_failures(sa, key)
@@ -188,7 +189,17 @@ def configs(tier):
             add(2, 2, version, 1, 5, 1, towards=T2)
             add(2, 2, version, 2, 5, 1, towards=T2)
         add(3, 2, 2, 1, 3, 1, towards=T3)
+        # start levels lmin >= 2
+        for version in (0, 1, 2):
+            add(2, 3, version, 1, 2, 1, lmin=2)
+        add(2, 4, 0, 1, 1, 1, lmin=3)
     else:
+        for version in (0, 1, 2):
+            add(2, 3, version, 1, 3, 1, lmin=2)
+            add(2, 4, version, 1, 2, 1, lmin=2)
+            add(2, 4, version, 2, 2, 1, lmin=3)
+            add(3, 3, version, 1, 2, 1, lmin=2)
+            add(2, 3, version, 1, 4, 1, lmin=2, towards=T2)
         for version in (0, 1, 2):
             for nref in (1, 2, 3):
                 add(2, 2, version, nref, 7, 1, towards=T2 + [[0.8, 0.3]])
